@@ -14,6 +14,7 @@ package main
 
 import (
 	"context"
+	"encoding/hex"
 	"encoding/json"
 	"fmt"
 	"os"
@@ -42,6 +43,8 @@ type faultResp struct {
 	OffD  int64  `json:"off_d"` // writer offsets assumed before the attempt
 	OffM  int64  `json:"off_m"`
 	Limit int64  `json:"limit,omitempty"`
+	DHex  string `json:"d_hex,omitempty"` // the two blocks as handed to Append (fbulk only)
+	MHex  string `json:"m_hex,omitempty"`
 }
 
 // onceCtx lets FracManager.Append make exactly n attempts: its retry loop asks Done() before each.
@@ -165,6 +168,7 @@ func init() {
 			return storectl.Resp{}, fmt.Errorf("fbulk: file %q", q.File)
 		}
 		out.Limit = limit
+		out.DHex, out.MHex = hex.EncodeToString(dd), hex.EncodeToString(mm)
 		signal.Ignore(syscall.SIGXFSZ)
 		var old syscall.Rlimit
 		if err := syscall.Getrlimit(syscall.RLIMIT_FSIZE, &old); err != nil {
@@ -190,6 +194,19 @@ func init() {
 			}
 		}
 		b, _ := json.Marshal(out)
+		return storectl.Resp{Extra: b}, nil
+	})
+}
+
+func init() {
+	// plen: lengths of the two blocks a bulk would produce (to place a fault)
+	storectl.Register("plen", func(c *storectl.Child, r storectl.Req) (storectl.Resp, error) {
+		var q faultReq
+		if err := json.Unmarshal(r.Extra, &q); err != nil {
+			return storectl.Resp{}, err
+		}
+		dd, mm := provide(q.Docs)
+		b, _ := json.Marshal(faultResp{LD: len(dd), LM: len(mm)})
 		return storectl.Resp{Extra: b}, nil
 	})
 }
